@@ -764,8 +764,12 @@ func rulePU8b() Rule {
 			direct := func(info *types.Info, n ast.Node) (delta int, indexesTop bool) {
 				switch x := n.(type) {
 				case *ast.AssignStmt:
-					if len(x.Lhs) == 1 && len(x.Rhs) == 1 && core.FieldOf(info, x.Lhs[0]) == stackF {
-						switch r := ast.Unparen(x.Rhs[0]).(type) {
+					// also as one side of a tuple assignment: `list, p.stack = p.stack[top], p.stack[:top]`
+					for i := range x.Lhs {
+						if len(x.Lhs) != len(x.Rhs) || core.FieldOf(info, x.Lhs[i]) != stackF {
+							continue
+						}
+						switch r := ast.Unparen(x.Rhs[i]).(type) {
 						case *ast.CallExpr:
 							if isBuiltinCall(info, r, "append") && len(r.Args) >= 2 && core.FieldOf(info, r.Args[0]) == stackF {
 								return len(r.Args) - 1, false
@@ -797,6 +801,36 @@ func rulePU8b() Rule {
 					return true
 				})
 				net[f] = d
+			}
+			// closed world: the depth changes only in the forms the analysis understands
+			for _, f := range funcs {
+				info := f.Info()
+				f.OwnNodes(func(n ast.Node) bool {
+					as, ok := n.(*ast.AssignStmt)
+					if !ok {
+						return true
+					}
+					for i, l := range as.Lhs {
+						if _, isField := ast.Unparen(l).(*ast.SelectorExpr); !isField || core.FieldOf(info, l) != stackF {
+							continue
+						}
+						understood := false
+						if len(as.Lhs) == len(as.Rhs) {
+							switch r := ast.Unparen(as.Rhs[i]).(type) {
+							case *ast.CallExpr:
+								understood = isBuiltinCall(info, r, "append") && len(r.Args) >= 2 && core.FieldOf(info, r.Args[0]) == stackF
+							case *ast.SliceExpr:
+								understood = core.FieldOf(info, r.X) == stackF && r.Low == nil && r.High != nil
+							case *ast.Ident:
+								understood = r.Name == "nil"
+							}
+						}
+						if !understood {
+							rr.Unk(f, f.Name+"|stack assigned", as.Pos(), "the here-document stack is assigned in a form the depth analysis does not understand (neither append, nor p.stack[:k], nor nil)")
+						}
+					}
+					return true
+				})
 			}
 			type site struct {
 				g   *core.Func
